@@ -4,6 +4,8 @@ from __future__ import annotations
 
 import os
 
+from hypothesis import strategies as st
+
 from vf import lattice as lt
 from vf.core import Cell, Ctx, Violation
 from vf.foamdict import FoamParseError
@@ -77,13 +79,27 @@ def decode_and_check(case, built, text, ctx: Ctx):
     return bmd, shared
 
 
+@st.composite
+def with_history(draw, strategy):
+    """how the mesh gets written: once | twice (the second file is judged) | assemble, grade, write"""
+    case = draw(strategy)
+    case["history"] = draw(st.sampled_from(["write", "write", "write-write", "grade-write"]))
+    return case
+
+
 def check_success(case, ctx: Ctx) -> None:
     built = lt.build(case)
     try:
+        if case.get("history") == "grade-write":
+            built.mesh.assemble()
+            built.mesh.grade()
         text, _ = lt.write_text(built.mesh)
+        if case.get("history") == "write-write":
+            text, _ = lt.write_text(built.mesh)
     except Exception as ex:  # whether a well-posed model must be written is C02's business
         ctx.label("write-raised:" + type(ex).__name__)
         return
+    ctx.label("history:" + case.get("history", "write"))
     bmd, shared = decode_and_check(case, built, text, ctx)
     # chops that give a count are honoured on the chopped block direction
     for ap in built.applied:
@@ -135,12 +151,12 @@ def _adjacent(case) -> bool:
 
 
 CELLS = [
-    Cell("C01/success/wellposed", lt.chopped_lattice("wellposed"), check_success, 150, 8000,
-         "one count chop (1-in-5 multi-section) per edge family; counts agree on every shared edge, wires carry the "
-         "written count, chops honoured"),
-    Cell("C01/success/redundant", lt.chopped_lattice("redundant"), check_success, 150, 8000,
+    Cell("C01/success/wellposed", with_history(lt.chopped_lattice("wellposed")), check_success, 150, 8000,
+         "one count chop (1-in-5 multi-section) per edge family, written once / twice / after an explicit grade(); counts "
+         "agree on every shared edge, wires carry the written count, chops honoured"),
+    Cell("C01/success/redundant", with_history(lt.chopped_lattice("redundant")), check_success, 150, 8000,
          "as well-posed plus identical chops on further members of a family"),
-    Cell("C01/success/graded", lt.chopped_lattice("wellposed", graded=True, jitter="yes"), check_success, 100, 6000,
+    Cell("C01/success/graded", with_history(lt.chopped_lattice("wellposed", graded=True, jitter="yes")), check_success, 100, 6000,
          "graded chops (sizes, ratios, preserve modes) on jittered lattices"),
     Cell("C01/conflict", lt.chopped_lattice("conflict").filter(lambda c: c is not None), check_conflict, 200, 10000,
          "two count chops with different totals in one family: InconsistentGradingsError and no file"),
